@@ -20,6 +20,25 @@ type c15Seg struct {
 	Rel  string `json:"rel"`
 	Drop bool   `json:"drop,omitempty"`
 	Jit  int64  `json:"jit,omitempty"` // rtt varies in [RTT, RTT+Jit] deterministically (i*7919 mod)
+	// start time of sample i of the segment: 0 (StartK == 0), increasing (1), decreasing (-1), or scattered
+	// (|StartK| > 1: (i*StartK*7919) mod 10^9): completions arrive in any order relative to when the requests started
+	StartK int64 `json:"start_k,omitempty"`
+}
+
+func (sg c15Seg) start(n, i int) int64 {
+	switch {
+	case sg.StartK == 0:
+		return 0
+	case sg.StartK == 1:
+		return int64(n) * 1000
+	case sg.StartK == -1:
+		return 1_000_000_000_000 - int64(n)*1000
+	}
+	v := (int64(i) * sg.StartK * 7919) % 1_000_000_000
+	if v < 0 {
+		v = -v
+	}
+	return v
 }
 
 type c15Case struct {
@@ -75,6 +94,7 @@ func genC15(t *rapid.T) c15Case {
 		if rapid.IntRange(0, 2).Draw(t, "jit") == 0 {
 			s.Jit = rapid.Int64Range(1, 50).Draw(t, "jitv")
 		}
+		s.StartK = rapid.OneOf(rapid.SampledFrom([]int64{0, 1, -1}), rapid.Int64Range(-1000, 1000)).Draw(t, "startk")
 		c.Segs = append(c.Segs, s)
 	}
 	return c
@@ -100,6 +120,7 @@ func runC15(_ *testing.T, c c15Case) kit.Outcome {
 	staleRun, staleMaxEst := 0, 0
 	var stepUp, longRun bool
 	lowSeen := false
+	sinceReset := 0
 	n := 0
 	for _, sg := range c.Segs {
 		for i := 0; i < sg.Len; i++ {
@@ -108,9 +129,20 @@ func runC15(_ *testing.T, c c15Case) kit.Outcome {
 				rtt += int64(i*7919) % (sg.Jit + 1)
 			}
 			est := b.Outer.EstimatedLimit()
-			b.Outer.OnSample(0, rtt, Sample{Rel: sg.Rel, Inf: 3}.inflight(est), sg.Drop)
+			b.Outer.OnSample(sg.start(n, i), rtt, Sample{Rel: sg.Rel, Inf: 3}.inflight(est), sg.Drop)
 			n++
 			base, _ := b.noLoad()
+			// Gradient shows every reset: the baseline reads unset right after the probing sample. Resets must recur
+			// within twice the probe interval, whatever the samples in between were.
+			if algo == "gradient" && interval > 0 {
+				if base == 0 {
+					sinceReset = 0
+				} else if sinceReset++; sinceReset > 2*interval {
+					return kit.Viol("gradient:reset-overdue", "sample %d: %d samples since the baseline was last reset (probe interval %d: resets recur within twice the interval)", n, sinceReset, interval)
+				} else if sinceReset > interval {
+					longRun = true
+				}
+			}
 			if base != 0 && base > rtt {
 				return kit.Viol(algo+":baseline-above-sample", "sample %d rtt=%d: baseline reads %d (> the sample just processed)", n, rtt, base)
 			}
